@@ -36,11 +36,14 @@ class Tr:
         self.kind = kind
         self.consts = consts
         self.locals = {}  # name -> ('attrname',) etc.
+        self.subst = {}   # local bound once to an effect-free expression -> that expression
 
     # expressions: returns ('c', python_value) for static, ('int', lean) / ('bool', lean) for dynamic
     def expr(self, e):
         if isinstance(e, ast.Constant):
             return ("c", e.value)
+        if isinstance(e, ast.Name) and e.id in self.subst:
+            return self.expr(self.subst[e.id])
         if isinstance(e, ast.Name):
             if e.id == self.value:
                 if self.kind == "int":
@@ -153,6 +156,8 @@ class Tr:
                 parts.append(f'.lit "{esc(str(v.value))}"')
             elif isinstance(v, ast.FormattedValue):
                 x = v.value
+                while isinstance(x, ast.Name) and x.id in self.subst:
+                    x = self.subst[x.id]
                 src = ast.unparse(x)
                 if src == f"{self.inst}.__class__.__qualname__" or src == f"type({self.inst}).__qualname__" or src == f"{self.inst}.__class__.__name__" or src == f"type({self.inst}).__name__":
                     parts.append(".cls")
@@ -176,13 +181,29 @@ class Tr:
         s, rest = stmts[0], stmts[1:]
         if isinstance(s, ast.Expr) and isinstance(s.value, ast.Constant):
             return self.block(rest)
+        if isinstance(s, ast.AnnAssign) and isinstance(s.target, ast.Name) and s.value is not None:
+            s = ast.Assign(targets=[s.target], value=s.value)
+        if isinstance(s, ast.If) and len(s.body) == 1 and len(s.orelse) == 1:
+            # if c: x = A  else: x = B    ==    x = A if c else B
+            def single(st):
+                if isinstance(st, ast.Assign) and len(st.targets) == 1 and isinstance(st.targets[0], ast.Name):
+                    return st.targets[0].id, st.value
+                return None
+            p1, p2 = single(s.body[0]), single(s.orelse[0])
+            if p1 and p2 and p1[0] == p2[0]:
+                s = ast.Assign(targets=[ast.Name(id=p1[0], ctx=ast.Store())], value=ast.IfExp(test=s.test, body=p1[1], orelse=p2[1]))
         if isinstance(s, ast.Assign) and len(s.targets) == 1 and isinstance(s.targets[0], ast.Name):
             src = ast.unparse(s.value)
             a = self.attr
             if src in (f"{a}.name if hasattr({a}, 'name') else str({a})", f"{a}.name"):
                 self.locals[s.targets[0].id] = "attrname"
                 return self.block(rest)
-            raise Untranslatable(f"assignment {ast.unparse(s)}")
+            x = s.targets[0].id
+            if x in (self.inst, self.attr, self.value) or x in self.subst or any(isinstance(n, ast.Call) and not (isinstance(n.func, ast.Name) and n.func.id == "isinstance") for n in ast.walk(s.value)):
+                raise Untranslatable(f"assignment {ast.unparse(s)}")
+            # a local bound once to an effect-free expression (comparisons, isinstance, attribute reads): used through substitution
+            self.subst[x] = s.value
+            return self.block(rest)
         if isinstance(s, ast.Return):
             k, v = self.expr(s.value) if s.value is not None else ("c", None)
             if k == "c" and v is True:
@@ -297,6 +318,14 @@ def inline_helpers(stmts, fns, depth=0):
             hb = _helper_body(st.value, fns, depth)
             out.extend(hb)
             continue
+        if isinstance(st, ast.Raise) and isinstance(st.exc, ast.Call) and isinstance(st.exc.func, ast.Name) and st.exc.func.id in fns and st.cause is None:
+            # raise helper(...)  where the helper builds and returns the exception
+            hb = _helper_body(st.exc, fns, depth)
+            if hb and isinstance(hb[-1], ast.Return) and hb[-1].value is not None and not any(isinstance(x, ast.Return) for y in hb[:-1] for x in ast.walk(y)):
+                out.extend(hb[:-1])
+                out.append(ast.Raise(exc=hb[-1].value, cause=None))
+                continue
+            raise Untranslatable(f"raise {st.exc.func.id}(...): the helper is not straight-line code ending in one return")
         if isinstance(st, ast.If):
             st.test = _inline_expr(st.test, fns, depth)
             st.body = inline_helpers(st.body, fns, depth)
